@@ -42,6 +42,11 @@ func (E *Engine) heapArrSort(h map[string]string, comp, full string) string {
 		return name
 	}
 	ep := h[epochKey]
+	for p, e := range parseKeep(h[keepKey]) {
+		if compHasPrefix(comp, p) {
+			ep = e // component family preserved since that epoch
+		}
+	}
 	name := qsym("H0" + ep + ":" + comp)
 	E.declare(name, "() "+full)
 	E.cur.compSort[comp] = full
